@@ -346,7 +346,63 @@ func genFlow(t *Tape, name string) *Plan {
 			g.plan.Ops[i].Concurrent = false
 		}
 	}
-	if name == "C09" && t.Draw("c09.shape", 4) == 0 {
+	c09shape := -1
+	if name == "C09" {
+		c09shape = t.Draw("c09.shape", 6)
+	}
+	if c09shape == 1 || c09shape == 2 {
+		// faulty-resume skeletons: a persistent subscriber holds unacknowledged QoS 1/2 deliveries, loses its connection
+		// (or not: then the next connection is a takeover) and resumes the session on a connection that is born
+		// faulty. Shape 1: one of the broker's first writes on it (CONNACK or a resend) fails, and the client resumes
+		// once more. Shape 2: the broker's writes on it block (the client is slow to read its CONNACK) while another
+		// client publishes, then they flow again. Every unacknowledged message is owed to the last connection.
+		first := len(g.plan.Ops)
+		for i := range g.plan.Ops {
+			if g.plan.Ops[i].Kind == "subscribe" && g.plan.Ops[i].Pkt != nil && len(g.plan.Ops[i].Pkt.Filters) > 0 {
+				g.plan.Ops[i].Pkt.Filters[0].Filter = "#"
+				g.plan.Ops[i].Pkt.Filters[0].Opts = g.plan.Ops[i].Pkt.Filters[0].Opts&^3 | 2
+			}
+			if g.plan.Ops[i].Kind == "connect" && g.plan.Ops[i].Pkt != nil {
+				g.plan.Ops[i].Pkt.CleanStart = false
+				g.plan.Ops[i].AckMode = 1
+			}
+		}
+		g.Connect(1)
+		npub := 1 + t.Draw("c09.npub", 2)
+		for i := 0; i < npub; i++ {
+			pi := g.Publish(1)
+			if g.plan.Ops[pi].Pkt.Qos == 0 {
+				g.plan.Ops[pi].Pkt.Qos = 1
+				g.plan.Ops[pi].Pkt.PacketID = g.pid(1)
+			}
+		}
+		if t.Draw("c09.dropfirst", 3) > 0 {
+			g.Drop(0)
+		}
+		ci := g.Connect(0)
+		g.plan.Ops[ci].Pkt.CleanStart = false
+		g.plan.Ops[ci].AckMode = 1
+		if c09shape == 1 {
+			g.plan.Ops[ci].Fault = []string{"failwrite", "short"}[t.Draw("c09.bornfault", 2)]
+			g.plan.Ops[ci].N = t.Draw("c09.bornfault.n", npub+1)
+			ci2 := g.Connect(0)
+			g.plan.Ops[ci2].Pkt.CleanStart = false
+			g.plan.Ops[ci2].AckMode = 1
+		} else {
+			g.plan.Ops[ci].Fault = "stall"
+			pi := g.Publish(1)
+			if g.plan.Ops[pi].Pkt.Qos == 0 {
+				g.plan.Ops[pi].Pkt.Qos = 1
+				g.plan.Ops[pi].Pkt.PacketID = g.pid(1)
+			}
+			g.add(Op{Kind: "unstall", Slot: 0})
+			g.add(Op{Kind: "advance", Ms: 10})
+		}
+		for i := first; i < len(g.plan.Ops); i++ {
+			g.plan.Ops[i].Concurrent = false
+		}
+	}
+	if c09shape == 0 {
 		// lost-reply skeleton: a persistent subscriber acknowledges a QoS 1/2 delivery by hand while the broker's next
 		// write on that connection fails (the connection dies between the acknowledgement and the reply), then it
 		// resumes the session. What was published, which step of the exchange is hit and the tail are drawn.
